@@ -1019,6 +1019,10 @@ def build_advi(arg):
             parameters.append('coalescent.growth')
         if arg.coalescent == 'piecewise-exponential':
             parameters.append('coalescent.growth')
+    elif arg.birth_death == "constant":
+        parameters.extend(
+            [f"constant.{p}" for p in ("lambda", "mu", "psi", "rho", "origin")]
+        )
     elif arg.birth_death is not None:
         parameters.append("bdsk.R")
         parameters.append("bdsk.delta")
